@@ -18,6 +18,7 @@ func init() {
 			{"ENC-PUT", ruleEncPut},
 			{"ENC-SEPARATION", ruleEncSeparation},
 			{"ENC-INHERIT", ruleEncInherit},
+			{"ENC-MEMBERSHIP", ruleEncMembership},
 			{"ENC-SIBLING", ruleEncSibling},
 			{"KEY-EGRESS", ruleKeyEgress},
 			{"EVENT-PAYLOAD", ruleEventPayload},
@@ -307,6 +308,50 @@ func ruleEncInherit(c *eng.Ctx) {
 	c.Floor(rule, n, 1)
 	// inside the loop: an encrypted previous head yields its key or an error
 	winfo := w.fi.Pkg.TypesInfo
+	// the loop visits every head: nothing leaves it early on a head that is not encrypted
+	{
+		early := token.NoPos
+		var stack []ast.Node
+		ast.Inspect(w.loop.Body, func(m ast.Node) bool {
+			if m == nil {
+				stack = stack[:len(stack)-1]
+				return true
+			}
+			stack = append(stack, m)
+			nested, inEncrypted := false, false
+			for _, s := range stack[:len(stack)-1] {
+				switch x := s.(type) {
+				case *ast.ForStmt, *ast.RangeStmt, *ast.SwitchStmt, *ast.TypeSwitchStmt, *ast.SelectStmt:
+					nested = true
+				case *ast.IfStmt:
+					if be, ok := ast.Unparen(x.Cond).(*ast.BinaryExpr); ok && be.Op == token.NEQ && isFieldNamed(winfo, be.X, "Encryption") {
+						inEncrypted = true
+					}
+				}
+			}
+			switch x := m.(type) {
+			case *ast.BranchStmt:
+				if x.Tok == token.BREAK && !nested && !inEncrypted {
+					early = x.Pos()
+				}
+			case *ast.ReturnStmt:
+				if len(x.Results) == 3 && !inEncrypted {
+					t0, ok0 := winfo.Types[x.Results[0]]
+					t2, ok2 := winfo.Types[x.Results[2]]
+					if ok0 && t0.IsNil() && ok2 && t2.IsNil() {
+						early = x.Pos()
+					}
+				}
+			}
+			return true
+		})
+		pos := w.loop.Pos()
+		if early != token.NoPos {
+			pos = early
+		}
+		c.Check(early == token.NoPos, rule, "heads-loop:visits-every-head", pos, "a head that is not encrypted does not end the search",
+			"the search for an encrypted previous head stops at a head that is not encrypted: with mixed heads (a clear block written by a peer without the key sorting first) the key holder's next update of the encrypted field is stored in clear")
+	}
 	ast.Inspect(w.loop.Body, func(m ast.Node) bool {
 		is, ok := m.(*ast.IfStmt)
 		if !ok {
@@ -527,4 +572,94 @@ func ruleKeyEgress(c *eng.Ctx) {
 		})
 	}
 	_ = token.NoPos
+}
+
+// ruleEncMembership: whether a field is individually encrypted is decided by looking at every
+// element of the user-supplied EncryptedFields list (which is in request order, not sorted): the
+// list is only ever ranged over, passed to slices.Contains/Index, measured, or handed to a helper
+// that does the same. A binary search or a positional read misses listed fields, which are then
+// stored in clear.
+func ruleEncMembership(c *eng.Ctx) {
+	const rule = "ENC-MEMBERSHIP"
+	n := 0
+	var checkUse func(fi *eng.FuncInfo, isList func(e ast.Expr) bool, label string, depth int)
+	checkUse = func(fi *eng.FuncInfo, isList func(e ast.Expr) bool, label string, depth int) {
+		info := fi.Pkg.TypesInfo
+		var stack []ast.Node
+		ord := 0
+		ast.Inspect(fi.Decl.Body, func(m ast.Node) bool {
+			if m == nil {
+				stack = stack[:len(stack)-1]
+				return true
+			}
+			stack = append(stack, m)
+			e, ok := m.(ast.Expr)
+			if !ok || !isList(e) || len(stack) < 2 {
+				return true
+			}
+			parent := stack[len(stack)-2]
+			if p, ok := parent.(*ast.ParenExpr); ok && len(stack) >= 3 {
+				_ = p
+				parent = stack[len(stack)-3]
+			}
+			ord++
+			n++
+			construct := fmt.Sprintf("%s:%s-use#%d", shortFn(fi), label, ord)
+			switch p := parent.(type) {
+			case *ast.RangeStmt:
+				if p.X == e {
+					c.OK(rule, construct, e.Pos(), "ranged over")
+					return true
+				}
+			case *ast.KeyValueExpr, *ast.AssignStmt, *ast.ValueSpec, *ast.ReturnStmt:
+				c.OK(rule, construct, e.Pos(), "stored/forwarded unchanged")
+				return true
+			case *ast.CallExpr:
+				if id, ok := p.Fun.(*ast.Ident); ok && (id.Name == "len" || id.Name == "cap") {
+					c.OK(rule, construct, e.Pos(), "measured")
+					return true
+				}
+				nm := eng.CalleeName(info, p)
+				switch nm {
+				case "slices.Contains", "slices.Index", "slices.ContainsFunc", "slices.IndexFunc", "slices.Clone":
+					c.OK(rule, construct, e.Pos(), "exhaustive library scan "+nm)
+					return true
+				}
+				if strings.HasPrefix(nm, "slices.BinarySearch") || strings.HasPrefix(nm, "sort.Search") {
+					c.Bad(rule, construct, p.Pos(), "the list of individually encrypted fields is binary-searched ("+nm+") although it is in request order, not sorted: listed fields are reported as not encrypted and written to the block store in clear")
+					return true
+				}
+				if g := c.P.FuncOfObj(eng.Callee(info, p)); g != nil && g.Decl.Body != nil && depth > 0 {
+					gps := paramObjs(g.Pkg.TypesInfo, g.Decl)
+					for ai, a := range p.Args {
+						if a == e && ai < len(gps) {
+							gp := gps[ai]
+							ginfo := g.Pkg.TypesInfo
+							checkUse(g, func(x ast.Expr) bool { return eng.ObjOf(ginfo, x) == gp }, label, depth-1)
+						}
+					}
+					c.OK(rule, construct, e.Pos(), "handed to "+shortFn(g)+" (checked there)")
+					return true
+				}
+				c.OK(rule, construct, e.Pos(), "handed to "+nm)
+				return true
+			case *ast.IndexExpr, *ast.SliceExpr:
+				c.Bad(rule, construct, e.Pos(), "the list of individually encrypted fields is read by position/sub-slice: the other listed fields are not considered and are written in clear")
+				return true
+			}
+			c.OK(rule, construct, e.Pos(), "other use")
+			return true
+		})
+	}
+	for _, fi := range c.P.Funcs() {
+		if fi.Decl.Body == nil || isTestFile(c.P, fi) || !pkgMatch(eng.ShortPkg(fi.Pkg.PkgPath), []string{"internal/encryption", "internal/core/block", "internal/db"}) {
+			continue
+		}
+		info := fi.Pkg.TypesInfo
+		checkUse(fi, func(e ast.Expr) bool {
+			se, ok := e.(*ast.SelectorExpr)
+			return ok && se.Sel.Name == "EncryptedFields" && isFieldNamed(info, se, "EncryptedFields")
+		}, "EncryptedFields", 2)
+	}
+	c.Floor(rule, n, 4)
 }
